@@ -61,6 +61,11 @@ def cases(draw):
         over["cb_rate"] = 4
     p = S.profile_for(bset, **over)
     prog = draw(S.programs(p))
+    if bset == ["c", "cpp"] and draw(st.integers(0, 2)) == 0:
+        # bridged traits (accepted by the C backend only; cpp rejects the program and is skipped): one or two of them
+        S.add_trait(draw, prog, "DvTrait")
+        if draw(st.booleans()):
+            S.add_trait(draw, prog, "DvOtherTrait")
     placed = []
     if draw(st.booleans()):
         placed = draw(S.decorate(prog, disable=False, namespace=True))
